@@ -29,7 +29,13 @@ RULE = ("cases = wiring (device | standalone) x packet script; closed-loop strea
         "byte position stalled 1..3 cycles | each position stalled with 25 % for 1..5 cycles | 50 % random | one or two "
         "stalls of 1..7 cycles exactly before the PID / first / random / last payload byte / first / second CRC byte | never; "
         "every data packet the device transmits must be [PID with the expected toggle] ++ expected payload ++ CRC16-LE by "
-        "usbref, and a byte offered while tx_ready is low must be held")
+        "usbref, and a byte offered while tx_ready is low must be held; "
+        "'usbdevice-pid' cases (monitor only, 4 quick / 24 thorough): the real USBDevice with a "
+        "USBIsochronousStreamInEndpoint (max packet 3/4/8/16, frames of > 2 x max packet bytes in 5 of 9 SOFs: DATA2, "
+        "DATA1, DATA0) and a test endpoint whose 2-bit PID selection (weighted to 2 and 3), length 0..20 and payload are "
+        "testbench inputs; SOFs + IN tokens on the UTMI receive side, tx_ready per packet always | 50 % | 25 % | stall "
+        "of 1..7 cycles before the PID; every packet on the UTMI bus must be [PID byte of the tx_pid_toggle the endpoint "
+        "shows in the cycle it starts its request] ++ the bytes the endpoint handed over ++ CRC16-LE")
 ASSUMPTIONS = [
     "stream producer: valid held from the first to the last byte, first on the first byte, last on the last, payload "
     "stable while a byte is not accepted; a ZLP request is valid & last & ~first for one cycle while "
@@ -54,6 +60,10 @@ def gen_cases(tier, rng):
     nd = {"quick": 12, "widen": 32}.get(tier, 80)
     out += [{"kind": "usbdevice", "wiring": "usbdevice", "seed": rng.u64(), "k": k,
              "shape": ["long", "std", "long"][k % 3]} for k in range(nd)]
+    # the real USBDevice with endpoints requesting all four PID selections, monitor only (appended last: seeds above stay)
+    npid = {"quick": 4, "widen": 12}.get(tier, 24)
+    out += [{"kind": "usbdevice-pid", "wiring": "usbdevice-pid", "seed": rng.u64(), "k": k, "mps": [4, 8, 3, 16][k % 4],
+             "cycles": 4000} for k in range(npid)]
     return out
 
 
@@ -442,7 +452,264 @@ def run_usbdevice(desc):
     return Case([2], inputs, outputs, fails, sorted(tags), d, ["event…"], ["kind", "pid", "len", "bytes…"], lean=False)
 
 
+# ----------------------------------------------------------------------------- the real USBDevice, all four PID selections
+# Case kind "usbdevice-pid" (monitor only): USBDevice + USBIsochronousStreamInEndpoint (requests selections 2, 1, 0 for
+# a frame of more than 2 x max_packet_size bytes) + a minimal test endpoint whose 2-bit selection is a testbench input
+# (so that MDATA = 3 is requested too).  Cycle-level closed loop (in_util.run), open-loop replay from the stimulus.
+PID_NAMES_IN = ["rx_active", "rx_valid", "rx_data", "line_state", "tx_ready", "connect", "iso.bytes_in_frame",
+                "iso.stream.valid", "iso.stream.payload", "sel.pid_select", "sel.length", "sel.base"]
+PID_NAMES_OUT = ["tx_valid", "tx_data", "iso.stream.ready",
+                 "iso.tx.valid", "iso.tx.first", "iso.tx.last", "iso.tx.ready", "iso.tx.payload", "iso.tx_pid_toggle",
+                 "sel.tx.valid", "sel.tx.first", "sel.tx.last", "sel.tx.ready", "sel.tx.payload", "sel.tx_pid_toggle"]
+PID_ISO_EP, PID_SEL_EP, PID_NO_EP = 2, 3, 5
+
+
+def _sel_endpoint(number):
+    from amaranth import Elaboratable, Module, Signal
+    from luna.gateware.usb.usb2.endpoint import EndpointInterface
+
+    class SelEndpoint(Elaboratable):
+        """Answers each IN token for `number` with `length` bytes base, base+1, … (length 0: a zero-length request,
+        valid & last without first for one cycle) and requests the PID selection `pid_select`."""
+
+        def __init__(self):
+            self.interface = EndpointInterface()
+            self.pid_select = Signal(2)
+            self.length = Signal(5)
+            self.base = Signal(8)
+
+        def elaborate(self, platform):
+            m = Module()
+            iface, tok, tx = self.interface, self.interface.tokenizer, self.interface.tx
+            pos = Signal(5)
+            m.d.comb += iface.tx_pid_toggle.eq(self.pid_select)
+            with m.FSM(domain="usb"):
+                with m.State("IDLE"):
+                    m.d.usb += pos.eq(0)
+                    with m.If(tok.is_in & (tok.endpoint == number) & tok.ready_for_response):
+                        with m.If(self.length == 0):
+                            m.next = "ZLP"
+                        with m.Else():
+                            m.next = "SEND"
+                with m.State("ZLP"):
+                    m.d.comb += [tx.valid.eq(1), tx.last.eq(1)]
+                    m.next = "IDLE"
+                with m.State("SEND"):
+                    m.d.comb += [tx.valid.eq(1), tx.first.eq(pos == 0), tx.last.eq(pos == self.length - 1),
+                                 tx.payload.eq(self.base + pos)]
+                    with m.If(tx.ready):
+                        m.d.usb += pos.eq(pos + 1)
+                        with m.If(tx.last):
+                            m.next = "IDLE"
+            return m
+
+    return SelEndpoint()
+
+
+class _PidHost:
+    """Host + PHY agent, one row per cycle.  SOFs (frame numbers moving on), IN tokens for the isochronous endpoint, the
+    selection endpoint and an endpoint nobody serves; waits for the answer to end before the next packet.  tx_ready per
+    transmitted packet: always | 50 % | 25 % | a stall of 1..7 cycles before the PID byte then 80 %."""
+
+    def __init__(self, rng, mps):
+        self.r, self.mps = rng, mps
+        self.queue = [(0, 0, 0)] * rng.range(4, 8)
+        self.wait = None
+        self.after = None
+        self.frame_no = rng.below(2048)
+        self.bif = 0
+        self.iso_left = 0
+        self.sel = [0, 1, 0]
+        self.iso_byte = rng.range(1, 255)
+        self.mode, self.stall = "always", 0
+        self.pending = []
+
+    def _token(self, ep):
+        return list(U.render_rx(U.token_packet(U.PID_IN, 0, ep), self.r, gap_choices=(0, 0, 0, 1, 2)))
+
+    def next_packet(self):
+        r, m = self.r, self.mps
+        if not self.pending:
+            # one frame: SOF, then a shuffled mix of IN tokens
+            self.frame_no = (self.frame_no + 1) % 2048
+            self.pending = [("sof",)]
+            toks = [("iso",)] * r.weighted([(1, 0), (2, 2), (5, 3), (2, 4)]) + [("sel",)] * r.range(1, 3)
+            if r.chance(30):
+                toks.append(("none",))
+            # keep the isochronous tokens in order, interleave the others
+            out = []
+            for tk in toks:
+                out.insert(r.range(0, len(out)) if tk[0] != "iso" else len(out), tk)
+            self.pending += out
+        step = self.pending.pop(0)
+        if step[0] == "sof":
+            self.new_bif = r.weighted([(5, r.range(2 * m + 1, 3 * m)), (2, r.range(m + 1, 2 * m)), (1, r.range(1, m)), (1, 0)])
+            self.queue = list(U.render_rx(U.sof_packet(self.frame_no), r, gap_choices=(0, 0, 0, 1, 2)))
+            self.queue += [(0, 0, 0)] * r.range(4, 10)
+            self.after = None
+        elif step[0] == "none":
+            self.queue = self._token(PID_NO_EP) + [(0, 0, 0)] * r.range(20, 40)
+            self.after = None
+        else:
+            if step[0] == "sel":
+                self.new_sel = [r.weighted([(3, 3), (3, 2), (1, 1), (1, 0)]),
+                                r.weighted([(2, 0), (2, 1), (2, 2), (6, r.range(3, 20))]), r.below(256)]
+            self.queue = self._token(PID_ISO_EP if step[0] == "iso" else PID_SEL_EP)
+            self.after = ["start", 400]
+            self.mode = r.weighted([(2, "always"), (3, "dens50"), (2, "dens25"), (4, "pidstall")])
+            self.stall = r.range(1, 7)
+    new_bif = None
+    new_sel = None
+
+    def __call__(self, t, prev):
+        r = self.r
+        valid = prev[0] if prev else 0
+        if prev and prev[2]:                         # iso.stream.ready: the producer's byte was taken
+            self.iso_byte = r.range(1, 255)
+        rx = (0, 0, 0)
+        if self.wait is not None:
+            if self.wait[0] == "start":
+                if valid:
+                    self.wait = ["pkt"]
+                else:
+                    self.wait[1] -= 1
+                    if self.wait[1] <= 0:
+                        self.wait = None
+            if self.wait is not None and self.wait[0] == "pkt" and not valid:
+                self.wait = None
+                self.queue = [(0, 0, 0)] * r.range(3, 8)
+        if self.wait is None:
+            if not self.queue:
+                self.next_packet()
+                if self.new_bif is not None:
+                    self.bif, self.new_bif = self.new_bif, None
+                if self.new_sel is not None:
+                    self.sel, self.new_sel = self.new_sel, None
+            rx = self.queue.pop(0)
+            if not self.queue and self.after is not None:
+                self.wait, self.after = self.after, None
+        # PHY acceptance: depends only on earlier cycles
+        if self.mode == "always":
+            ready = 1
+        elif self.mode == "dens50":
+            ready = int(r.chance(50))
+        elif self.mode == "dens25":
+            ready = int(r.chance(25))
+        else:
+            if valid and self.stall > 0:
+                self.stall -= 1
+                ready = 0
+            else:
+                ready = int(r.chance(80)) if valid else 0
+        return [rx[0], rx[1], rx[2], 0b10 if rx[0] else 0b01, ready, 1, self.bif, 1, self.iso_byte,
+                self.sel[0], self.sel[1], self.sel[2]]
+
+
+def pid_monitor(stim, rows):
+    """Every request an endpoint makes to the transmitter (valid & (first | last) while no request is running) must
+    appear on the UTMI bus as [PID byte of the selection the endpoint shows in that cycle] ++ the bytes the endpoint
+    handed over, in order ++ their CRC16 (low byte first)."""
+    fails, tags = [], set()
+
+    def fail(t, sig, what):
+        if len(fails) < 3 and not any(f["sig"] == sig for f in fails):
+            fails.append({"cycle": t, "sig": sig, "what": what})
+
+    reqs = []                      # [cycle, endpoint name, selection, bytes, complete]
+    cur = None
+    for t, o in enumerate(rows):
+        for name, k in (("iso", 3), ("sel", 9)):
+            valid, first, last, ready, payload, sel = o[k:k + 6]
+            if cur is None:
+                if valid and (first or last):
+                    if not first:
+                        reqs.append([t, name, sel, [], True])
+                        continue
+                    cur = [t, name, sel, [], False]
+            if cur is not None and cur[1] == name:
+                if valid and ready:
+                    cur[3].append(payload)
+                    if last:
+                        cur[4] = True
+                        reqs.append(cur)
+                        cur = None
+    if cur is not None:
+        reqs.append(cur)
+    pkts = []
+    pk = None
+    for t, (i, o) in enumerate(zip(stim, rows)):
+        if o[0]:
+            if pk is None:
+                pk = [t, [], False]
+            if i[4]:
+                pk[1].append(o[1])
+        elif pk is not None:
+            pk[2] = True
+            pkts.append(pk)
+            pk = None
+    if pk is not None:
+        pkts.append(pk)
+    for n, rq in enumerate(reqs):
+        t, name, sel, data, complete = rq
+        if n >= len(pkts):
+            if complete and len(rows) - t > 60 + 20 * len(data):
+                fail(t, "dev-tx-missing", "cycle %d: endpoint '%s' handed a packet of %d bytes to the transmitter, nothing "
+                     "was transmitted" % (t, name, len(data)))
+            break
+        pt, got, ended = pkts[n]
+        if not (complete and ended):
+            break                                   # trace cut inside this packet
+        c = U.usb2_crc16(data)
+        want = [DATA_PID_BYTES[sel]] + list(data) + [c & 0xFF, c >> 8]
+        tags.add("devpid:%s:sel%d%s" % (name, sel, ":zlp" if not data else ""))
+        if not stim[pt][4]:
+            tags.add("devpid:stall-at-pid")
+        if got != want:
+            sig = "dev-tx-pid" if got[:1] != want[:1] else ("dev-tx-payload" if got[1:-2] != want[1:-2] or len(got) < 3
+                                                            else "dev-tx-crc16")
+            fail(pt, sig, "cycle %d: endpoint '%s' requested PID selection %d (%s) with %d payload bytes; the device "
+                 "transmitted %s, required %s" % (t, name, sel, ["DATA0", "DATA1", "DATA2", "MDATA"][sel], len(data),
+                                                  bytes(got).hex(), bytes(want).hex()))
+    if len(pkts) > len(reqs):
+        fail(pkts[len(reqs)][0], "dev-tx-unrequested", "a packet is transmitted that no endpoint requested: %s"
+             % bytes(pkts[len(reqs)][1]).hex())
+    for t in range(len(rows) - 1):
+        if rows[t][0] and not stim[t][4] and (not rows[t + 1][0] or rows[t + 1][1] != rows[t][1]):
+            fail(t, "dev-tx-data-unstable", "cycle %d: tx_data=%#04x offered with tx_ready low, next cycle tx_valid=%d "
+                 "tx_data=%#04x" % (t, rows[t][1], rows[t + 1][0], rows[t + 1][1]))
+            break
+    return fails, tags, len(reqs)
+
+
+def run_usbdevice_pid(desc):
+    from harness.props import in_util
+    from luna.gateware.interface.utmi import UTMIInterface
+    from luna.gateware.usb.usb2.device import USBDevice
+    from luna.gateware.usb.usb2.endpoints.isochronous_stream_in import USBIsochronousStreamInEndpoint
+    mps = desc.get("mps", 4)
+    utmi = UTMIInterface()
+    dev = USBDevice(bus=utmi, handle_clocking=False)
+    iso = USBIsochronousStreamInEndpoint(endpoint_number=PID_ISO_EP, max_packet_size=mps)
+    sel = _sel_endpoint(PID_SEL_EP)
+    dev.add_endpoint(iso)
+    dev.add_endpoint(sel)
+    ins = [utmi.rx_active, utmi.rx_valid, utmi.rx_data, utmi.line_state, utmi.tx_ready, dev.connect, iso.bytes_in_frame,
+           iso.stream.valid, iso.stream.payload, sel.pid_select, sel.length, sel.base]
+    outs = [utmi.tx_valid, utmi.tx_data, iso.stream.ready]
+    for e in (iso, sel):
+        x = e.interface
+        outs += [x.tx.valid, x.tx.first, x.tx.last, x.tx.ready, x.tx.payload, x.tx_pid_toggle]
+    stim, rows = in_util.run(dev, ins, outs, desc, lambda: _PidHost(Rng(desc["seed"]), mps), desc.get("cycles", 2500))
+    fails, tags, nreq = pid_monitor(stim, rows)
+    if not nreq and not desc.get("stimulus"):
+        raise RuntimeError("the usbdevice-pid run produced no data packet to judge")
+    tags.update({"wiring:usbdevice-pid", "mps=%d" % mps})
+    return Case([3], stim, [list(r) for r in rows], fails, sorted(tags), desc, PID_NAMES_IN, PID_NAMES_OUT, lean=False)
+
+
 def run_case(desc):
+    if desc.get("kind") == "usbdevice-pid":
+        return run_usbdevice_pid(desc)
     if desc.get("kind") == "usbdevice":
         # a replay re-runs the adaptive host from the seed (the run is a function of the seed)
         return run_usbdevice({k: v for k, v in desc.items() if k != "stimulus"})
